@@ -59,10 +59,11 @@ def regenerate():
                                          # further Gh0st probes: the reply blob is data for the translator whichever probe yields it
                                          # (whether *every* Gh0st payload is answered is the exploration's question, not the translator's)
                                          ('A', 'udp', ip4('1.2.3.4'), ip4('10.0.0.1'), 1, 2, None, b'Gh0st' + bytes(8)),
-                                         ('A', 'udp', ip4('1.2.3.4'), ip4('10.0.0.1'), 1, 2, None, b'Gh0st' + bytes(range(64)))])
-    if rc != 0 or len(blocks) != 9:
+                                         ('A', 'udp', ip4('1.2.3.4'), ip4('10.0.0.1'), 1, 2, None, b'Gh0st' + bytes(range(64))),
+                                         ('A', 'tcp', ip4('1.2.3.4'), ip4('10.0.0.1'), 1, 2, 0x7fff0001, b'Gh0st' + bytes(range(64)))])
+    if rc != 0 or len(blocks) != 10:
         return False, 'dump failed: rc=%s %s' % (rc, err[:300])
-    for alt in (7, 8):
+    for alt in (7, 8, 9):
         if (blocks[3]['r'] or '-').split()[0] in ('-', 'PANIC'):
             blocks[3] = blocks[alt]
     # free text of the HTTP 401 response and of the rpcbind DUMP entries, from real replies
